@@ -190,7 +190,7 @@ def check(run):
         ok, why = False, "no carried chain loss"
     from .c06 import depends_on
     depends_on(run, "C10")
-    depends_on(run, "C02", {"FORMULA"})         # PFI tracks the centred contribution mean(losses) - loss, not two raw losses
+    depends_on(run, "C02", {"FORMULA", "SAME"}, only=lambda rule, inst: rule == "FORMULA" or "operator" in inst)         # PFI tracks the centred contribution mean(losses) - loss, not two raw losses
     depends_on(run, "C12", {"TYPESTATE", "COPY"})
     depends_on(run, "C03", {"KEY"})             # the credits are tracked as differenced, not rescaled afterwards       # one tracker per key
     run.check(ok, "CHAIN", "raw-losses", sg.where(sg.L.line), sg.fq, f"chain losses: {why or 'as returned'}",
